@@ -5,7 +5,7 @@ From NV Require Import Surface.Ast Surface.Indent Surface.Print Surface.Parse Su
 Import ListNotations.
 Open Scope string_scope.
 
-Check (C14_op_table_wf : table_ok binops prefixops max_level primops op_spelling infix_ops = true).
+Check (C14_op_table_wf : table_ok binops prefixops max_level primops op_spelling infix_ops postfix_ops = true).
 Check (C14_number_print_refuted :
   pa only_num (pr only_num w_number) = Some (Num (123456789012345700000000000000 # 1))).
 Check (C14_annotated_in_type_position_refuted :
